@@ -449,7 +449,9 @@ pub fn decode_output(out: &[u8], kinds: &[ReplyKind]) -> Decoded {
         truncated_only: false,
     };
     if used_phys != d.phys.len() {
+        // the stream stops inside a long message: a truncation, not a malformation
         d.problem = Some(format!("{} trailing 0xFFFFFF-byte fragments without a terminating packet", d.phys.len() - used_phys));
+        d.truncated_only = true;
     }
     if d.msgs.is_empty() {
         if d.problem.is_none() {
@@ -461,7 +463,8 @@ pub fn decode_output(out: &[u8], kinds: &[ReplyKind]) -> Decoded {
     match parse_greeting(&d.msgs[0].payload) {
         Ok(g) => d.greeting = Some(g),
         Err(e) => {
-            d.problem.get_or_insert(format!("greeting: {}", e));
+            d.problem = Some(format!("greeting: {}", e));
+            d.truncated_only = false;
             return d;
         }
     }
@@ -479,7 +482,8 @@ pub fn decode_output(out: &[u8], kinds: &[ReplyKind]) -> Decoded {
             return d;
         }
         Err(Need::Bad(e)) => {
-            d.problem.get_or_insert(format!("auth reply: {}", e));
+            d.problem = Some(format!("auth reply: {}", e));
+            d.truncated_only = false;
             return d;
         }
     }
@@ -497,7 +501,8 @@ pub fn decode_output(out: &[u8], kinds: &[ReplyKind]) -> Decoded {
                 break;
             }
             Err(Need::Bad(e)) => {
-                d.problem.get_or_insert(format!("reply to command {}: {}", i, e));
+                d.problem = Some(format!("reply to command {}: {}", i, e));
+                d.truncated_only = false;
                 break;
             }
         }
